@@ -1,6 +1,7 @@
 import Driver.Common
 import Driver.C10
 import Driver.C14
+import Driver.C17
 /-!
 Line protocol of the model driver: one JSON object per input line, `{"f": <function>, …}`,
 one JSON value per output line.  Stateless: every line carries all it needs.
@@ -9,7 +10,8 @@ open Lean Driver
 
 def handlers : List (String → Json → Option Json) :=
   [ Driver.C10.handle,
-    Driver.C14.handle ]
+    Driver.C14.handle,
+    Driver.C17.handle ]
 
 def dispatch (line : String) : Json :=
   match Json.parse line with
